@@ -165,7 +165,7 @@ func (w *Webhook) Handle(
 
 	// Create patch if not equal.
 	if !isEqual {
-		patch, err := cmp.CreateJSONPatch(rj, newRj)
+		patch, err := cmp.CreateJSONPatch(json.RawMessage(req.Object.Raw), newRj)
 		if err != nil {
 			return nil, errors.Wrapf(err, "cannot create jsonpatch")
 		}
